@@ -1,4 +1,5 @@
 import FuModel.Find.StartPoints
+import FuModel.Proofs.OutWalk
 
 /-!
 # C18 — starting points: processed in order, spelled as given, isolated on error
@@ -164,5 +165,29 @@ example : (parseLeading ["-H".toList, "-print".toList]).paths = [['.']] ∧
     (parseLeading ["-H".toList, "-print".toList]).follow = .roots := by decide
 example : files0 [45, 97, 0, 0, 98, 10, 99] = ([[45, 97], [98, 10, 99]], true) := by decide
 example : pathOf [46, 47, 100, 47, 47] [[99], [98]] = [46, 47, 100, 47, 47, 98, 47, 99] := by decide
+
+/-- **End to end over all starting points**: `find S1 S2 … TEST ACTION` with an action that only
+    writes (`-print`, `-print0`, `-printf`): `do_find`'s loop over the starting points, each walked
+    by `process_dir` over walkdir's iterator, writes exactly the concatenation — in command-line
+    order — of what each starting point contributes (its in-range reachable entries that satisfy
+    the test, in visit order, each once); a starting point that cannot be examined contributes
+    nothing, does not stop the others and makes the exit status non-zero.  Proof: `doFind_out` in
+    `Proofs/OutWalk.lean`. -/
+theorem C18_roots_in_order (c : Config) (t a : Prim) (ht : isTestP t = true) (ha : isOutP a = true)
+    (roots : List (Bytes × Option (Node Attr)))
+    (hH : ∀ x ∈ roots, ∀ r, x.2 = some r → (refCfg c).depthFirst = true →
+      ¬ HRootLink (refCfg c) (if c.sorted then sortNode r else r))
+    (g : GS) (ret diags : Nat) :
+    let res := doFind c (.and [.prim t, .prim a]) roots g ret diags
+    res.gs.out = g.out ++ roots.flatMap (writtenRoot c t a) ∧
+    ((ret ≠ 0 ∨ ∃ x ∈ roots, x.2 = none) → res.ret ≠ 0) :=
+  doFind_out c t a ht ha roots hH g ret diags
+
+/-- non-vacuity: `find a missing b -print0` — the reference side, evaluated by the kernel -/
+example :
+    let fa : Node Attr := .leaf [97] .plain { lty := 'f', sty := 'f' }
+    let fb : Node Attr := .leaf [98] .plain { lty := 'f', sty := 'f' }
+    ([([97], some fa), ([109], none), ([98], some fb)] : List (Bytes × Option (Node Attr))).flatMap
+        (writtenRoot {} .true_ (.pathOut [] [0])) = [97, 0, 98, 0] := by decide
 
 end FuModel.Find.Run
